@@ -86,7 +86,10 @@ type c12Obs struct {
 // rounds run on an eq.Clone of the input built first, odd rounds on an independently rebuilt
 // equal input. Update order and the canonical dump are taken immediately after each call
 // returns. Then the oracles are evaluated per input.
-func c12Session(res *fw.Result, ins []c12Input, r *gen.R) {
+func c12Session(res *fw.Result, ins []c12Input, r *gen.R) { c12SessionK(res, ins, r, c12K) }
+
+// c12SessionK is c12Session with K runs per input.
+func c12SessionK(res *fw.Result, ins []c12Input, r *gen.R, K int) {
 	n := len(ins)
 	ways0 := make([]osm.Ways, n)
 	rels0 := make([]osm.Relations, n)
@@ -99,7 +102,7 @@ func c12Session(res *fw.Result, ins []c12Input, r *gen.R) {
 	}
 	obs := make([][]*c12Obs, n)
 	seq := 0
-	for k := 0; k < c12K; k++ {
+	for k := 0; k < K; k++ {
 		order := make([]int, n)
 		for i := range order {
 			order[i] = i
@@ -492,6 +495,62 @@ func c12Exec(c fw.Case) *fw.Result {
 			}
 		}
 		c12Session(res, ins, gen.New(c.Seed, "c12session"))
+	case "skew":
+		// a later version with an earlier instant (clock skew), 13-200 updates on one index,
+		// the position of the inversion swept
+		reg := hist.Commit
+		if c.Int("stamp") == 1 {
+			reg = hist.Stamp
+		}
+		n, nIdx := int(c.Int("n")), int(c.Int("idx"))
+		kind := "rel"
+		if c.Int("way") == 1 {
+			kind = "way"
+		}
+		var pos []int
+		if n <= 24 {
+			for p := 2; p <= n; p++ {
+				pos = append(pos, p)
+			}
+		} else {
+			for k := 0; k < 16; k++ {
+				pos = append(pos, 2+k*(n-2)/15)
+			}
+		}
+		var ins []c12Input
+		for _, p := range pos {
+			h := hist.Skew(c.Int("way") == 1, reg, n, nIdx, []int{p})
+			ins = append(ins, c12Input{h: h, id: fmt.Sprintf("skew-%s-%s-%d-%d-%d", kind, reg, n, nIdx, p),
+				enumKey: fmt.Sprintf("skew/%s/%s/updates-per-index=%d/indices=%d/inversion-at=%d", kind, reg, n, nIdx, p)})
+		}
+		// a few inversions in one list
+		for _, ps := range [][]int{{2, n}, {3, n / 2, n - 1}, {n / 3, n/3 + 2, 2 * n / 3}} {
+			h := hist.Skew(c.Int("way") == 1, reg, n, nIdx, ps)
+			ins = append(ins, c12Input{h: h, id: fmt.Sprintf("skew-%s-%s-%d-%d-%v", kind, reg, n, nIdx, ps),
+				enumKey: fmt.Sprintf("skew/%s/%s/updates-per-index=%d/indices=%d/inversions-at=%v", kind, reg, n, nIdx, ps)})
+		}
+		res.Add("skew_inputs", int64(len(ins)))
+		c12Session(res, ins, nil)
+		res.Sample = map[string]any{"history": ins[0].h}
+	case "handover":
+		// child A leaves the parent and is deleted in that very commit (or in between, with
+		// IgnoreInconsistency) while child B enters; 36 runs per input
+		var ins []c12Input
+		for k := 0; k < int(c.Int("n")); k++ {
+			r := gen.New(gen.Sub(c.Seed, "c12ho", k), "c12handover")
+			reg := hist.Commit
+			variant := k % 3
+			if variant == 2 && r.Bool() {
+				reg = hist.Stamp
+			}
+			h := hist.Handover(r, k%2 == 0, reg, variant)
+			ins = append(ins, c12Input{h: h, id: fmt.Sprintf("%x-h%d", c.Seed, k)})
+			if k == 0 {
+				res.Sample = map[string]any{"history": h}
+			}
+		}
+		res.Add("handover_inputs", int64(len(ins)))
+		c12SessionK(res, ins, gen.New(c.Seed, "c12session"), 36)
 	case "wide":
 		// field widths of an update: 4097-70000 child positions, updates on both sides of powers
 		// of two, versions beyond 16 bits, instants 2^36 s apart, sub-second ties
@@ -577,6 +636,23 @@ func c12Cases(tier string, seed uint64) []fw.Case {
 			c.P["target"] = targets[(4+i)%len(targets)]
 		}
 		cs = append(cs, c)
+	}
+	// clock skew (enumerated) and handover (a child deleted exactly when the parent drops it while another enters)
+	skewN := []int64{13, 14, 20, 50, 200}
+	for i, n := range skewN {
+		cs = append(cs, fw.Case{Kind: "skew", P: map[string]int64{"n": n, "idx": 1, "way": 1, "stamp": 0}})
+		cs = append(cs, fw.Case{Kind: "skew", P: map[string]int64{"n": n, "idx": 1 + int64(i%2), "way": int64(i % 2), "stamp": 1}})
+		if tier == "thorough" {
+			cs = append(cs, fw.Case{Kind: "skew", P: map[string]int64{"n": n + 3, "idx": 2, "way": 0, "stamp": 0}})
+			cs = append(cs, fw.Case{Kind: "skew", P: map[string]int64{"n": n + 17, "idx": 1, "way": 1, "stamp": 1}})
+		}
+	}
+	nHo := 4
+	if tier == "thorough" {
+		nHo = 40
+	}
+	for i := 0; i < nHo; i++ {
+		cs = append(cs, fw.Case{Kind: "handover", Seed: gen.Sub(seed, "c12handover", i), P: map[string]int64{"n": 9}})
 	}
 	// wide parents (seed independent sizes; the random placement part depends on the seed)
 	wide := []int64{4097, 4200, 8193, 16385, 33000, 65537, 65600, 70000}
